@@ -7,7 +7,7 @@ import vaultlib
 
 ASSUME = ["spec/Vault.tla is the reference semantics (Matches / Ordered / ListRes)",
           "List limit 0 means no limit (documented on cosmosdb reader.List; both implementations apply a limit only when it is > 0)",
-          "results are compared as sequences of plan ids; the other ListResult fields are not demanded by the statement",
+          "results are compared as sequences of plan ids; of the other ListResult fields only the status is looked at, and only after an UpdatePlan one of whose storage operations the cosmosdb fake refused: Read and List must then tell the same status",
           "plans get distinct submit times (down to 1 ns apart)",
           "cosmosdb over the fake client decides: Exists, stream closure, id-only searches (as sets), supersets/subsets for mixed filters, List counts; status/group predicates and ordering are decided on the "
           "query text of VerifBuildSearchQuery by an interpreter of the generated subset (unparseable text => counted inconclusive, never a violation); the List query text is not exposed",
@@ -19,6 +19,7 @@ def run(prop, tier, seed, replay=None):
     gens = [dict(cfg="VaultC15Bulk.cfg", consts={"Groups": "{0,1,2}"} if quick else {"CIds": '{"p1","p2","p3"}', "MaxVer": 3, "Groups": "{0,1,2}"}, timeout=1500),
             dict(cfg="VaultC15Cover.cfg", consts={} if quick else {"InitVers": "{0,1,2}", "FMax": 3}, timeout=1500),
             dict(cfg="VaultC15Seq.cfg", consts={"MaxLen": 3 if quick else 4}, timeout=1500),
+            dict(cfg="VaultC15UpdFail.cfg", consts={"MaxLen": 3 if quick else 4}, timeout=1500),
             dict(cfg="VaultC15Sim.cfg", simulate="num=%d" % (200 if quick else 5000), depth=31, timeout=200 if quick else 900)]
     rule = ("for every abstract store over %d creatable ids (all statuses x groups x submission orders) Exists of every id, Search with EVERY filter combination of 0..2 ids x 0..2 groups x 0..2 statuses and List with every limit 0..n+1; "
             "a transition cover and every history of length %d with Exists/Search/List interleaved with Create/Delete/UpdatePlan; seeded random histories of length 30 over 4 creatable ids; every stream drained with a time-out" % (2 if quick else 3, 3 if quick else 4))
